@@ -34,7 +34,7 @@ THEOREMS = [
     "Verif.C03.sum_over_ranges_eq_image",
 ]
 RULE = (
-    "corpus (F9 input, split-mode mean witness) + malformed stream (empty wave, nothing used, no boundary, interior "
+    "corpus (F11 input, split-mode mean witness) + malformed stream (empty wave, nothing used, no boundary, interior "
     "discards, non-constant pixel size / line period / dead time: compared with the model only) + exhaustive small "
     "scope [kymographs: P<=3 pixels/line, <=3 lines, k<=2 samples/pixel (thorough: P,lines<=4, k<=3), per-line dead "
     "time <=2, lead-in <=1, the stream truncated at every sample after the first complete pixel (quick: every 2nd/3rd), "
@@ -304,13 +304,13 @@ def agree(case, i, ia, ma):
         return ia == ma
     if op == "scan":
         if i in (1, 2):
-            # the model answers "<pinned> <repaired>": a single incomplete frame starts at 0 in the pinned code (F9);
+            # the model answers "<pinned> <repaired>": a single incomplete frame starts at 0 in the pinned code (F11);
             # either is accepted here, the oracle judges which one the property allows
             return ia in ma.split(" ")
         if i == 3:
             return _close_ns(ia, ma)
         if i == 4 and single_truncated_frame(case):
-            return True  # the reduction over the F9 range is judged by the oracle only
+            return True  # the reduction over the F11 range is judged by the oracle only
         return ia == ma
     return ia == ma
 
